@@ -408,3 +408,24 @@ EXTRA3 = {
 }
 for _p, _t in EXTRA3.items():
   CLAIMS[_p]['text'] = CLAIMS[_p]['text'].rstrip() + ' ' + _t
+
+# Members added after the fourth round of seeded changes.
+EXTRA4 = {
+    'C02': 'A plain dict whose entries share the root is also built, and the argument-less members hold typed-equal '
+           'constant tuples.',
+    'C04': 'A fourth callable has a positional-only parameter and no *args (keyword override of a '
+           'positional-or-keyword parameter at call time).',
+    'C08': 'The structure holds a shared tuple whose only non-constant content sits inside a nested tuple.',
+    'C09': 'A sixth configuration kind is a list root of 40 objects of a user node type whose flatten creates '
+           'temporaries, next to two callables whose names differ by CamelCase / snake_case only.',
+    'C10': 'A 20th edit kind removes the value of a tagged argument and changes its tag set in one step; the empty-diff '
+           'obligation runs on configurations with NaN leaves.',
+    'C11': 'Programs with a free variable rebound after decoration and with a keyword argument named fn_or_cls.',
+    'C12': 'A seventh shape holds int-keyed arguments (positional-only parameters, *args behind a positional-or-keyword '
+           'parameter, with and without that parameter set).',
+    'C18': 'The directive alphabet includes a fiddler that changes the configuration and fails on its first invocation; '
+           'after an error the value is read again and no directive may have been applied twice.',
+    'C20': 'The family holds one list shared through containers that contain no Buildable.',
+}
+for _p, _t in EXTRA4.items():
+  CLAIMS[_p]['text'] = CLAIMS[_p]['text'].rstrip() + ' ' + _t
